@@ -19,7 +19,7 @@ theorem derive_node_plain {m : Meta} {kd : Kind} {items : List (Key × T)} (h : 
   simp [derive, T.sv, h, deriveS]
 
 theorem deriveMiss_node (m : Meta) (kd : Kind) (items : List (Key × T)) :
-    deriveMiss (.node m kd items) = missItemsS (T.svItems items) := by
+    deriveMiss (.node m kd items) = missItemsS m.sch.isSome (T.svItems items) := by
   simp [deriveMiss, T.sv, missS]
 
 /-- `derive` / `deriveMiss` of a node see its class, its schema and the `sv` of its items only. -/
@@ -100,22 +100,22 @@ mutual
         exact ⟨⟨hc, Or.inr (by rw [← hd])⟩, hi⟩
       | none =>
         simp only []
-        obtain ⟨i1, i2, i3⟩ := readMissItems_spec items hi
+        obtain ⟨i1, i2, i3⟩ := readMissItems_spec sch.isSome items hi
         refine ⟨by simp [deriveMiss, T.sv, missS, i1], ?_, by simp [T.sv, i3]⟩
         simp only [Fresh]
         refine ⟨⟨?_, Or.inr (by simp [deriveMiss, T.sv, missS, i1, i3])⟩, i2⟩
         simpa [derive, T.sv, i3] using hc
-  theorem readMissItems_spec : (items : List (Key × T)) → FreshItems items →
-      (readMissItems items).2 = missItemsS (T.svItems items) ∧ FreshItems (readMissItems items).1 ∧
-        T.svItems (readMissItems items).1 = T.svItems items
+  theorem readMissItems_spec (typed : Bool) : (items : List (Key × T)) → FreshItems items →
+      (readMissItems typed items).2 = missItemsS typed (T.svItems items) ∧ FreshItems (readMissItems typed items).1 ∧
+        T.svItems (readMissItems typed items).1 = T.svItems items
     | [], _ => by simp [readMissItems, T.svItems, missItemsS, FreshItems]
     | (k, .leaf a) :: rest, h => by
       simp only [FreshItems] at h
-      obtain ⟨h1, h2, h3⟩ := readMissItems_spec rest h.2
+      obtain ⟨h1, h2, h3⟩ := readMissItems_spec typed rest h.2
       simp [readMissItems, T.svItems, T.sv, missItemsS, FreshItems, h1, h2, h3, Fresh]
     | (k, .node m kd its) :: rest, h => by
       simp only [FreshItems] at h
-      obtain ⟨h1, h2, h3⟩ := readMissItems_spec rest h.2
+      obtain ⟨h1, h2, h3⟩ := readMissItems_spec typed rest h.2
       obtain ⟨g1, g2, g3⟩ := readMiss_spec (.node m kd its) h.1
       simp only [readMissItems, T.svItems, FreshItems, g2, h2, and_self, g3, h3, and_true]
       rw [g1, h1]
